@@ -130,6 +130,20 @@ class C01(Prop):
 
         res = []
         ir = self.py_ir(c["ir"])
+        # one entry -> its lines, in every style (docstring_utils.emit_param_str, word_wrap off)
+        from doctrans.docstring_utils import emit_param_str
+
+        ents = list(c["ir"]["params"]) + ([["return_type", c["ir"]["returns"]]] if c["ir"]["returns"] is not None else [])
+        py_ents = list(ir["params"].items()) + ([("return_type", ir["returns"]["return_type"])] if ir.get("returns") else [])
+        for (n, pj), (_, pp) in zip(ents, py_ents):
+            for style in STYLES:
+                try:
+                    impl = {"ok": emit_param_str((n, copy.deepcopy(pp)), style=style, emit_doc=True, emit_type=True, word_wrap=False, emit_default_doc=c["emit_dd"])}
+                except Exception as e:
+                    impl = {"raises": exc_kind(e)}
+                res.append(("emit_param_" + style, {"op": "emit_param_str", "name": n, "param": pj, "style": style, "emit": c["emit_dd"]}, impl))
+        for style in ("numpydoc", "google"):
+            res.append(("emit_" + style, {"op": "emit_docstring", "style": style, "ir": c["ir"], "emit": c["emit_dd"]}, self.py_emit(ir, style, c["emit_dd"])))
         pe = self.py_emit(ir, "rest", c["emit_dd"])
         res.append(("emit_rest", {"op": "emit_rest", "ir": c["ir"], "emit": c["emit_dd"]}, pe))
         if "ok" in pe:
